@@ -65,7 +65,14 @@ class PaneBase:
     ):
         old_params = getattr(cls, '__parameters__', ())
         super().__init_subclass__(*args, **kwargs)
-        setattr(cls, '__parameters__', old_params + getattr(cls, '__parameters__', ()))
+        new_params = getattr(cls, '__parameters__', ())
+        if any(t.get_origin(base) is t.Generic for base in cls.__dict__.get('__orig_bases__', ())):
+            # an explicit Generic[...] determines the order of parameters
+            params = (*new_params, *old_params)
+        else:
+            params = (*old_params, *new_params)
+        # a type variable forwarded to a base and redeclared is still one parameter
+        setattr(cls, '__parameters__', tuple(dict.fromkeys(params)))
 
         if rename is not None:
             if in_rename is not None or out_rename is not None:
